@@ -1107,6 +1107,11 @@ func classes() []classGen {
 			return q("odd-method", hx.Pick(r, []string{"TRACE", "CONNECT", "FOO", "get", "HEAD", "OPTIONS", "PATCH"}),
 				hx.Pick(r, []string{"/", "/s/a", "/d/" + v(r), "/w/" + v(r), "/only/post", "/vs", "/vd/" + v(r), "/nope", "/star*"}), verHdr(r))
 		}},
+		// request targets that are not in origin-form: asterisk-form (OPTIONS *), authority-form (CONNECT host:port), a
+		// hand-built relative URL.Path — none can match a pattern; they must leave through the 404 path like any miss
+		{"non-origin-target", func(r *hx.Rand) Req {
+			return q("non-origin-target", hx.Pick(r, []string{"OPTIONS", "CONNECT", "GET", "POST"}), hx.Pick(r, []string{"*", "host.example:443", "relative", "zz/y", "..", "?"}), verHdr(r))
+		}},
 		{"odd-path", func(r *hx.Rand) Req {
 			return q("odd-path", hx.Pick(r, []string{"GET", "GET", "POST", "PUT"}), hx.Pick(r, []string{"", "/zz/", "/zz//y", "/%6eope", "/zz/" + strings.Repeat("y", 300), "/s/A", "/S/a"}), verHdr(r))
 		}},
@@ -1225,6 +1230,8 @@ func witnesses() []Case {
 			{Method: "GET", Path: "/d/7", Prog: Prog{Mode: "E", Status: 500, Size: 0, Cancel: true}, Class: "main-param"},
 			{Method: "GET", Path: "/nope", Prog: e, Class: "404"},
 		}},
+		{Kind: "R", C: Cfg{Obs: true}, Q: Req{Method: "OPTIONS", Path: "*", Prog: e, Class: "non-origin-target"}},
+		{Kind: "R", C: Cfg{Obs: true, Compiled: true, Versioning: true, NoRoute: true}, Q: Req{Method: "GET", Path: "relative", Prog: e, Class: "non-origin-target"}},
 		{Kind: "R", C: Cfg{Obs: true, Versioning: true, PathVer: true}, Q: Req{Method: "GET", Path: "/api/v17/vd/7", Prog: e, Class: "path-ver"}},
 		{Kind: "R", C: Cfg{Obs: true, Versioning: true, PathVer: true}, Q: Req{Method: "GET", Path: "/api/v99-beta/vs", Prog: e, Class: "path-ver"}},
 		{Kind: "A", C: on, H: []Req{
